@@ -216,7 +216,7 @@ func c15Tokenize(s string) []string {
 	return toks
 }
 
-var c15Inserts = []string{"(", ")", "{", "}", "[", "]", ".", ",", "not", "and", "or", "in", "is", "empty", "any", "as", "_", "==", "!=", "1", "01", "-", `"`, "`", " ", "x", `"/p"`, `"\z"`, "contains", "matches", "\xff", "é", "1.", "0x1", "\v", "\f", "\u00a0", "\u2028", "\u0085", "\ufffd", "[\"a.b\"]", "[`x y`]"}
+var c15Inserts = []string{"(", ")", "{", "}", "[", "]", ".", ",", "not", "and", "or", "in", "is", "empty", "any", "as", "_", "==", "!=", "1", "01", "-", `"`, "`", " ", "x", `"/p"`, `"\z"`, "contains", "matches", "\xff", "é", "1.", "0x1", "\v", "\f", "\u00a0", "\u2028", "\u0085", "\ufffd", "[\"a.b\"]", "[`x y`]", ".18446744073709551615", ".99999999999999999999", ".9223372036854775808", ".00000000000000000000001", "18446744073709551616"}
 
 func c15Mutate(r *rand.Rand, s string) string {
 	toks := c15Tokenize(s)
